@@ -724,7 +724,7 @@ def random_gate(rng, N):
         while not g.any():
             g = gens.bits(rng, 2 * N)
         return pcirc.clifford_rotation_gate(P(g, int(2 * rng.integers(0, 2)))), 'rot(%s)' % lst(g)
-    n = int(rng.integers(1, min(N, 2) + 1))
+    n = int(rng.integers(1, min(N, 3) + 1))
     q = tuple(sorted(rng.choice(N, size=n, replace=False).tolist()))
     if kind == 1:
         gate = pcirc.CliffordGate(*q)
@@ -768,11 +768,41 @@ def clone(o):
     return PL(o.gs.copy(), o.ps.copy())
 
 
+def stab_group_eq(a, c):
+    """same stabilizer group with signs, without dense matrices (usable for N > 3): every active generator of one
+    state has expectation +1 in the other, and the ranks agree"""
+    if a.N != c.N or a.r != c.r:
+        return False
+    if a.r == a.N:
+        return True
+    xs = c.expect(PL(a.gs[a.r:a.N].copy(), a.ps[a.r:a.N].copy()))
+    ys = a.expect(PL(c.gs[c.r:c.N].copy(), c.ps[c.r:c.N].copy()))
+    return bool((np.asarray(xs) == 1).all() and (np.asarray(ys) == 1).all())
+
+
+def c09_independence(b, Nmax=5):
+    """layer packing rests on independent_from: exhaustive over all pairs of ascending qubit tuples, N <= Nmax"""
+    tuples = [q for n in range(1, Nmax + 1) for q in itertools.combinations(range(Nmax), n)]
+    for q1 in tuples:
+        g1 = pcirc.CliffordGate(*q1)
+        for q2 in tuples:
+            g2 = pcirc.CliffordGate(*q2)
+            b.case()
+            want = not (set(q1) & set(q2))
+            if bool(g1.independent_from(g2)) != want:
+                b.fail('independent_from', 'gate on %s independent_from gate on %s = %s' % (q1, q2, g1.independent_from(g2)), {'q1': list(q1), 'q2': list(q2)})
+            lay = pcirc.CliffordLayer(pcirc.CliffordGate(*q1), pcirc.CliffordGate(*[x for x in range(Nmax) if x not in q1][:1])) if len(q1) < Nmax else pcirc.CliffordLayer(g1)
+            members = [set(g.qubits) for g in lay.gates]
+            if bool(lay.independent_from(g2)) != (not any(m & set(q2) for m in members)):
+                b.fail('layer_independent_from', 'layer %r independent_from gate on %s wrong' % (lay, q2), {'q1': list(q1), 'q2': list(q2)})
+
+
 def c09_circuits(run, Nmax=3, programs=60, maxlen=6):
     rng = np.random.default_rng(run.seed)
-    b = B('%d random gate programs, length <= %d, N <= %d, x {CliffordCircuit, Circuit} x {uncompiled, layer-compiled, circuit-compiled} x {original, copy, composed halves}; inputs: all strings (N<=2)/20 random strings with phases + one random state' % (programs, maxlen, Nmax))
+    b = B('independent_from exhaustive over all pairs of qubit tuples (N<=5); %d random gate programs (1-3 qubit gates, every third on 4-5 qubits), length <= %d, N <= %d, x {CliffordCircuit, Circuit} x {uncompiled, layer-compiled, circuit-compiled} x {original, copy, composed halves}; inputs: all strings (N<=2)/20 random strings with phases + one random state' % (programs, maxlen, Nmax))
+    c09_independence(b, 5)
     for pi in range(programs):
-        N = int(rng.integers(1, Nmax + 1))
+        N = int(rng.integers(1, Nmax + 1)) if pi % 3 else int(rng.integers(4, 6))     # every third program on 4-5 qubits
         L = int(rng.integers(1, maxlen + 1))
         gates = [random_gate(rng, N) for _ in range(L)]
         names = [nm for _, nm in gates]
@@ -823,7 +853,7 @@ def c09_circuits(run, Nmax=3, programs=60, maxlen=6):
                     if not same_list(l1, refl):
                         b.fail('circuit_order_%s_%s' % (comp, shape), 'circuit.forward(PauliList) differs from gate-by-gate application', inp)
                     okT, why = O.tableau_ok(s1.gs, s1.ps, s1.r)
-                    if not okT or not O.eq(O.rho(s1), O.rho(refs)):
+                    if not okT or s1.r != refs.r or not stab_group_eq(s1, refs):
                         b.fail('circuit_state_%s_%s' % (comp, shape), 'circuit.forward(state) differs from gate-by-gate application', inp)
         # locality of every single gate
         for g, nm in gates:
